@@ -44,17 +44,19 @@ impl Intent {
                 self.aspas.entry(ca.clone()).or_default().remove(customer);
             }
             Op::AspaProviders { ca, customer, add, del } => {
-                if let Some(p) = self.aspas.entry(ca.clone()).or_default().get_mut(customer) {
-                    p.retain(|x| !del.contains(x));
-                    for a in add {
-                        if !p.contains(a) {
-                            p.push(*a);
-                        }
+                // (an accepted update for a customer without definition
+                // creates the definition from the added providers)
+                let defs = self.aspas.entry(ca.clone()).or_default();
+                let p = defs.entry(*customer).or_default();
+                p.retain(|x| !del.contains(x));
+                for a in add {
+                    if !p.contains(a) {
+                        p.push(*a);
                     }
-                    p.sort();
-                    if p.is_empty() {
-                        self.aspas.get_mut(ca).unwrap().remove(customer);
-                    }
+                }
+                p.sort();
+                if p.is_empty() {
+                    defs.remove(customer);
                 }
             }
             Op::BgpsecAdd { ca, asn, csr } => {
@@ -250,6 +252,10 @@ impl Model for C01Model {
             Op::Roa { ca: c(), add: vec![ROA_B.into(), ROA_C.into(), ROA_D.into()], del: vec![ROA_A.into()] },
             Op::Roa { ca: c(), add: vec![ROA_A.into()], del: vec![ROA_B.into(), ROA_C.into(), ROA_D.into()] },
             Op::AspaSet { ca: c(), customer: 65000, providers: vec![65001] },
+            // a providers-only update of an existing definition (add only,
+            // remove only)
+            Op::AspaProviders { ca: c(), customer: 65000, add: vec![65002], del: vec![] },
+            Op::AspaProviders { ca: c(), customer: 65000, add: vec![], del: vec![65002] },
             Op::BgpsecAdd { ca: c(), asn: 65000, csr: 0 },
             Op::Entitle { parent: p(), child: c(), res: r3("AS65000", "10.0.0.0/16", "") },
             Op::Entitle { parent: p(), child: c(), res: r3("", "10.1.0.0/16", "2001:db8::/48") },
